@@ -154,14 +154,14 @@ def run(ck):
         return ck.finish(rule="build failed")
     rng = ck.rng
     cases = []
-    for _ in range(30 if not ck.thorough else 600):
+    for _ in range(28 if not ck.thorough else 600):
         maxq = rng.randint(2, 8)
         npk = rng.randint(10, 60)
         g = rng.randint(1, 9)
         a = rng.randint(0, npk)
         cases.append(stall_case(rng, maxq, npk, g, a, rng.randint(a, npk + 5), gop=rng.random() < 0.5, h265=rng.random() < 0.5))
     cases += [G.rand_case(rng, G.FIXED, maxq=rng.randint(1, 4), max_pkts=30, max_len=160, panic_p=0.3)
-              for _ in range(44 if not ck.thorough else 800)]
+              for _ in range(42 if not ck.thorough else 800)]
     # the real limit of 1000: a few long scripts
     for _ in range(1 if not ck.thorough else 12):
         npk = rng.randint(1100, 1250) if not ck.thorough else rng.randint(1300, 1800)
@@ -177,13 +177,15 @@ def run(ck):
               nontrivial=lambda c: True, sig=lambda c, e, o: "lts-lookalike", timeout=900)
     # the conversion chain: RTP in, FLV consumers served by rtp demuxer -> FLV muxer -> WriteFlvTag
     chains = []
-    plans = [(True, [21]), (True, [19, 21, 21]), (True, None), (True, [16, 17, 18, 20]), (False, None), (False, None)]
+    # one HEVC case per NAL type that starts a key frame (a converter that loses one of them never lets the FLV
+    # consumer begin to drop), one with all of them mixed, two H.264 cases
+    plans = [(True, [t]) for t in (16, 17, 18, 19, 20, 21)] + [(True, None), (False, None), (False, None)]
     if ck.thorough:
-        plans = plans * 12
+        plans = plans * 10
     for h265, only in plans:
-        npk = rng.randint(30, 44)
-        a = rng.randint(0, 4)
-        chains.append(chain_case(rng, h265, rng.randint(2, 5), npk, rng.randint(2, 5), a, rng.randint(npk - 12, npk - 4),
+        npk = rng.randint(26, 30) if not ck.thorough else rng.randint(26, 60)
+        a = rng.randint(0, 3)
+        chains.append(chain_case(rng, h265, rng.randint(2, 3), npk, rng.randint(2, 3), a, rng.randint(npk - 5, npk - 2),
                                  late_join=rng.random() < 0.3, only_types=only))
     ck.stream("rtp-to-flv-chain", chains, "C04_chain", "C04_lts", "C04_chain_ok",
               nontrivial=lambda c: True, sig=lambda c, e, o: "chain", timeout=900)
